@@ -4,7 +4,9 @@ META = dict(level="proof", trusted_base=["FX term interpreter + ghost-kind infer
 
 
 def tasks(tier, seed):
-    return [("contracts.mlcl_grads", "task", (tier, seed), 1500, "mlcl.decorate_grads")]
+    return [("contracts.mlcl_grads", "task", (tier, seed), 1500, "mlcl.decorate_grads"),
+            # B: the same contract replayed on the real code with more samples, batches and pairs per sample (stand-in for the missing induction over sizes)
+            ("contracts.size_ladder", "task", ("mlcl", tier, seed), 1500, "size ladder: constraint injection")]
 
 
 def extra(led, tier, seed):
